@@ -45,10 +45,9 @@ def fam_delta(rng):
     kind = rng.randrange(6)
 
     def thunk():
-        pin = i if rng.random() < 0.6 else OrderedDict()
-        point = _t(rng, pin)
-        # clean stream: log_density mentions only inputs of the point (else: region of KF-delta-logdensity-inputs)
-        logd = _t(rng, pin if rng.random() < 0.5 else OrderedDict(), kind="int")
+        point = _t(rng, i if rng.random() < 0.6 else OrderedDict())
+        # log_density may mention inputs the point lacks (Delta.__init__ used to drop them: fixed in /repo)
+        logd = _t(rng, i if rng.random() < 0.5 else OrderedDict(), kind="int")
         d = Delta("x", point, logd)
         x = Variable("x", Real)
         f = _t(rng, i, kind="int")
@@ -57,7 +56,7 @@ def fam_delta(rng):
         if kind == 1:
             return (x * 2.0 + f) + d                    # eager_add_funsor_delta
         if kind == 2:
-            d2 = Delta("y", _t(rng, i), _t(rng, i, kind="int"))
+            d2 = Delta("y", _t(rng, i if rng.random() < 0.5 else OrderedDict()), _t(rng, i, kind="int"))
             return d + d2                                # eager_add_multidelta
         if kind == 3:
             d2 = Delta("y", x + 1.0, Number(0.0))        # a delta whose point mentions x: fresh ∩ inputs
